@@ -375,7 +375,7 @@ def run_family(sess, M, dot, dfs, fam, up=False, chains=False, second_root=False
             sess.violated(name, role, 'reported %r, status %s, faults %r' % (trace, m.eval(status, model_completion=True), ctx.ghost.get('faulted')),
                           {'trace': trace}, cli_replay(fs, m, dot, dfs, second_root), fam)
 
-    n, complete = ex.explore(runp, on_path, time_budget=(240 if sess.tier == 'quick' else 1500))
+    n, complete = ex.explore(runp, on_path, time_budget=(480 if sess.tier == 'quick' else 1500))
     if not complete:
         sess.inconclusive('%s M=%d' % (fam, M), 'time budget exceeded after %d paths' % n, fam)
     elif not viol and not st.get('bad'):
